@@ -1,6 +1,7 @@
 import OmplModel.Proofs.Constrained
 import OmplModel.Proofs.ConstrainedField
 import OmplModel.Proofs.ConstrainedAtlas
+import OmplModel.Proofs.AtlasChart
 /-!
 # C16 — constrained spaces keep sampled, interpolated and path states on the manifold
 
@@ -659,6 +660,224 @@ theorem atlas_sampler_postdec_skips_fallback :
   · simp [atlasSampleNear, nearLoop, nearFinish, failingAtlas, dec32]
 
 end sampler
+
+/-! ## `AtlasChart`: the polytope bookkeeping (Model/AtlasChart.lean), as coded
+
+[AF] = for every `ChartArith` / `VecOps` (also the `Float` run); [EX] = for every linearly ordered
+field `K`, chart coordinates `Fin k → K` with `dot v u = ∑ i, v i * u i`, any function for `sqrt`.
+The projection maps are oracles: `w = owner->psiInverse(neighbor origin)`, `v' = psiInverse(psi(v))`
+are given inputs. -/
+
+section chart
+variable {α V : Type}
+
+/-- [AF] `inPolytope(u)` is `true` iff the radius test `u.norm() > radius_` is false **and** every
+halfspace of the polytope contains `u`. -/
+theorem inPolytope_iff_all (A : ChartArith α) (Vo : VecOps α V) (r : α) (hs : List (Halfspace α V)) (u : V) :
+    inPolytopeL A Vo r hs u = true ↔
+      A.lt r (A.sqrt (Vo.dot u u)) = false ∧ ∀ h ∈ hs, h.contains A Vo u = true :=
+  inPolytopeL_iff A Vo r hs u
+
+/-- [AF] adding boundaries can only shrink the polytope: a point that is in the polytope after
+halfspaces were appended was in it before (equivalently: once excluded, excluded for good). -/
+theorem inPolytope_antitone (A : ChartArith α) (Vo : VecOps α V) (r : α) (hs extra : List (Halfspace α V)) (u : V)
+    (h : inPolytopeL A Vo r (hs ++ extra) u = true) : inPolytopeL A Vo r hs u = true :=
+  inPolytopeL_append A Vo r hs extra u h
+
+/-- [AF] `generateHalfspace(c1, c2)` creates the complementary pair: two new table entries owned by
+`c1` and `c2`, each the other's complement, built from the two `psiInverse` answers by the
+constructor; nothing else in the table of halfspaces changes. -/
+theorem generateHalfspace_pair (A : ChartArith α) (Vo : VecOps α V) (M : AtlasM α V) (c1 c2 : Nat) (w12 w21 : V) :
+    let M' := M.generateHalfspace A Vo c1 c2 w12 w21
+    M'.hs.size = M.hs.size + 2 ∧
+    M'.hs[M.hs.size]? = some (Halfspace.create A Vo c1 w12 (M.hs.size + 1)) ∧
+    M'.hs[M.hs.size + 1]? = some (Halfspace.create A Vo c2 w21 M.hs.size) ∧
+    ∀ i, i < M.hs.size → M'.hs[i]? = M.hs[i]? := by
+  simp only [AtlasM.generateHalfspace, AtlasM.addBoundary]
+  refine ⟨by simp, ?_, ?_, ?_⟩
+  · simp [Array.getElem?_push]
+  · rw [Array.getElem?_push]
+    simp
+  · intro i hi
+    rw [Array.getElem?_push, Array.getElem?_push]
+    simp only [Array.size_push]
+    rw [if_neg (by omega), if_neg (by omega)]
+
+/-- [AF] **the monotonicity the atlas relies on when charts are added**: `generateHalfspace` (the
+only place where a polytope grows) only appends halfspaces and leaves radii alone, so for *every*
+chart of the table a point that is in its polytope afterwards was in it before. -/
+theorem generateHalfspace_antitone (A : ChartArith α) (Vo : VecOps α V) (M : AtlasM α V) (c1 c2 : Nat)
+    (w12 w21 : V) (c : Nat) (u : V) (ch : ChartM α) (hs : List (Halfspace α V))
+    (hch : M.chart? c = some ch) (hp : M.polytope? c = some hs)
+    (h : (M.generateHalfspace A Vo c1 c2 w12 w21).inPolytope A Vo c u = some true) :
+    M.inPolytope A Vo c u = some true := by
+  obtain ⟨ch', extra, h1, h2, h3⟩ := polytope?_generateHalfspace A Vo M c1 c2 w12 w21 c ch hs hch hp
+  simp only [AtlasM.inPolytope, h1, h3, hch, hp, h2, Option.some.injEq] at h ⊢
+  exact inPolytopeL_append A Vo ch.radius hs extra u h
+
+/-- [AF] `borderCheck(v)`, one halfspace at a time: the complement of a halfspace that passes the
+`checkNear` test `distanceToPoint(v) < 1/20` is replaced by its `expandToInclude(v')`; a halfspace
+that fails the test changes nothing. -/
+theorem borderCheck_spec (A : ChartArith α) (Vo : VecOps α V) (v : V) (hs : Array (Halfspace α V)) (i : Nat)
+    (is : List Nat) (v' : V) (vs : List V) (h c : Halfspace α V) (hi : hs[i]? = some h)
+    (hc : hs[h.compl]? = some c) :
+    borderLoop A Vo v hs (i :: is) (v' :: vs) =
+      borderLoop A Vo v
+        (if h.near A Vo v then hs.setIfInBounds h.compl (c.expandToInclude A Vo v') else hs) is vs := by
+  simp only [borderLoop, hi, hc]
+  split <;> rfl
+
+/-- [AF] `borderCheck` never adds or removes a halfspace. -/
+theorem borderCheck_size (A : ChartArith α) (Vo : VecOps α V) (M : AtlasM α V) (c : Nat) (v : V) (vps : List V) :
+    (M.borderCheck A Vo c v vps).hs.size = M.hs.size ∧ (M.borderCheck A Vo c v vps).charts = M.charts := by
+  unfold AtlasM.borderCheck
+  split
+  · exact ⟨borderLoop_size A Vo v _ _ _, rfl⟩
+  · exact ⟨rfl, rfl⟩
+
+/-- [AF] `owningChart`'s selection: the chart it returns was answered `inPolytope` and lies within
+`epsilon_`. -/
+theorem owningChart_sound (A : Arith α) (eps : α) (cands : List (Nat × Bool × α)) (id : Nat)
+    (h : owningChartSelect A eps cands = some id) : ∃ far, (id, true, far) ∈ cands ∧ A.lt far eps = true := by
+  rcases owningLoop_sound A eps cands eps none id h with h' | h'
+  · cases h'
+  · exact h'
+
+end chart
+
+section chartField
+variable {K : Type} [Field K] [LinearOrder K] [IsStrictOrderedRing K] {k : Nat}
+
+/-- [EX] **the halfspace bisects**: the halfspace built for (owner, neighbour) from
+`w = owner->psiInverse(neighbour origin)` contains exactly the points `v` of the owner's chart plane
+that are at least as close to the owner's origin (`0` in chart coordinates) as to `u = 1.05 · w`,
+the neighbour's origin as seen from the owner, pushed out by 5 %. -/
+theorem halfspace_bisects (eps : K) (sq : K → K) (owner compl : Nat) (w v : Fin k → K) :
+    (Halfspace.create (fieldChartArith eps sq) (finVecOps K k) owner w compl).contains
+        (fieldChartArith eps sq) (finVecOps K k) v = true ↔
+      ∑ i, v i * v i ≤ ∑ i, (v i - 21 / 20 * w i) * (v i - 21 / 20 * w i) := by
+  rw [contains_iff]
+  obtain ⟨hu, _, hrhs⟩ := create_fields eps sq owner compl w
+  rw [hu, hrhs]
+  have hexp := sq_dist_expand v ((finVecOps K k).smul (21 / 20) w)
+  have h1 : (∑ i, (v i - 21 / 20 * w i) * (v i - 21 / 20 * w i)) =
+      ∑ i, (v i - (finVecOps K k).smul (21 / 20) w i) * (v i - (finVecOps K k).smul (21 / 20) w i) := rfl
+  rw [h1, hexp, dot_smul_smul]
+  have h2 : (∑ i, v i * v i) = (finVecOps K k).dot v v := rfl
+  rw [h2]
+  constructor <;> intro h <;> linarith
+
+/-- [EX] **no crack between a complementary pair — as far as it holds without properties of psi**.
+Hypotheses on the oracle maps (what a flat, isometric change of chart gives): the two origins see
+each other at the same distance (`w21·w21 = w12·w12`) and the image `v'` of `v` in the other chart
+satisfies `v'·w21 = w12·w12 − v·w12`.  Then `v` and `v'` are not both excluded: the point is inside
+`c1`'s halfspace towards `c2` or inside `c2`'s halfspace towards `c1` (thanks to the 5 % overlap; on
+a curved manifold the hypotheses hold only approximately, which is what `borderCheck` is for). -/
+theorem halfspace_pair_complementary_partial (eps : K) (sq : K → K) (c1 c2 i1 i2 : Nat)
+    (w12 w21 v v' : Fin k → K)
+    (hN : (finVecOps K k).dot w21 w21 = (finVecOps K k).dot w12 w12)
+    (hT : (finVecOps K k).dot v' w21 = (finVecOps K k).dot w12 w12 - (finVecOps K k).dot v w12) :
+    ¬ ((Halfspace.create (fieldChartArith eps sq) (finVecOps K k) c1 w12 i2).contains
+          (fieldChartArith eps sq) (finVecOps K k) v = false ∧
+       (Halfspace.create (fieldChartArith eps sq) (finVecOps K k) c2 w21 i1).contains
+          (fieldChartArith eps sq) (finVecOps K k) v' = false) := by
+  rintro ⟨h1, h2⟩
+  have e1 : ¬ ((Halfspace.create (fieldChartArith eps sq) (finVecOps K k) c1 w12 i2).contains
+      (fieldChartArith eps sq) (finVecOps K k) v = true) := by simp [h1]
+  have e2 : ¬ ((Halfspace.create (fieldChartArith eps sq) (finVecOps K k) c2 w21 i1).contains
+      (fieldChartArith eps sq) (finVecOps K k) v' = true) := by simp [h2]
+  rw [contains_iff] at e1 e2
+  obtain ⟨hu1, _, hr1⟩ := create_fields eps sq c1 i2 w12
+  obtain ⟨hu2, _, hr2⟩ := create_fields eps sq c2 i1 w21
+  rw [hu1, hr1, dot_smul_right] at e1
+  rw [hu2, hr2, dot_smul_right, hN, hT] at e2
+  have hn := dot_self_nonneg w12
+  rw [not_le] at e1 e2
+  nlinarith
+
+/-- [EX] what `expandToInclude` achieves **as coded**: when it fires (`t > 0`, `u ≠ 0`) the new
+halfspace contains the point it was expanded for **iff `‖u‖² ≥ 1`** — because `distanceToPoint`
+computes `(0.5 − v·u) / ‖u‖²` instead of `0.5 − v·u / ‖u‖²`. -/
+theorem expandToInclude_contains_iff (eps : K) (sq : K → K) (h : Halfspace K (Fin k → K)) (v' : Fin k → K)
+    (husq : h.usq = (finVecOps K k).dot h.u h.u) (hpos : 0 < h.usq)
+    (ht : 0 < -(h.distanceToPoint (fieldChartArith eps sq) (finVecOps K k) v')) :
+    (h.expandToInclude (fieldChartArith eps sq) (finVecOps K k) v').contains
+        (fieldChartArith eps sq) (finVecOps K k) v' = true ↔ 1 ≤ h.usq := by
+  have hfire : (fieldChartArith eps sq).lt (fieldChartArith eps sq).zero
+      ((fieldChartArith eps sq).neg (h.distanceToPoint (fieldChartArith eps sq) (finVecOps K k) v')) = true := by
+    simpa [fieldChartArith, fieldArith] using ht
+  rw [contains_iff]
+  simp only [Halfspace.expandToInclude, hfire, ↓reduceIte, Halfspace.setU]
+  rw [dot_smul_right, dot_smul_smul]
+  simp only [fieldChartArith, fieldArith, Halfspace.distanceToPoint] at ht ⊢
+  rw [← husq]
+  set a := (finVecOps K k).dot v' h.u
+  set N := h.usq
+  have hN : N ≠ 0 := ne_of_gt hpos
+  have key : (1 + 2 * -((1 / 2 - a) / N)) = (N + 2 * a - 1) / N := by field_simp; ring
+  rw [key]
+  have hfac : 0 < (N + 2 * a - 1) / N := by
+    have : 0 < -((1 / 2 - a) / N) := ht
+    rw [neg_pos, div_neg_iff] at this
+    rcases this with ⟨h1, h2⟩ | ⟨h1, h2⟩
+    · exact absurd hpos (not_lt.mpr h2.le)
+    · exact div_pos (by linarith) hpos
+  have hq : 0 < N + 2 * a - 1 := by
+    rcases (div_pos_iff.mp hfac) with ⟨h1, _⟩ | ⟨_, h2⟩
+    · exact h1
+    · exact absurd hpos (not_lt.mpr h2.le)
+  constructor
+  · intro hle
+    have h1 : (N + 2 * a - 1) / N * a ≤ (N + 2 * a - 1) / N * ((N + 2 * a - 1) / N * N / 2) := by
+      calc (N + 2 * a - 1) / N * a ≤ (N + 2 * a - 1) / N * ((N + 2 * a - 1) / N) * N / 2 := hle
+        _ = (N + 2 * a - 1) / N * ((N + 2 * a - 1) / N * N / 2) := by ring
+    have h2 := le_of_mul_le_mul_left h1 hfac
+    have h3 : (N + 2 * a - 1) / N * N / 2 = (N + 2 * a - 1) / 2 := by field_simp
+    rw [h3] at h2
+    linarith
+  · intro h1
+    have h3 : (N + 2 * a - 1) / N * ((N + 2 * a - 1) / N) * N / 2 =
+        (N + 2 * a - 1) / N * ((N + 2 * a - 1) / 2) := by field_simp
+    rw [h3]
+    exact mul_le_mul_of_nonneg_left (by linarith) hfac.le
+
+/-- [EX] with the *intended* distance `0.5 − v·u/‖u‖²` (not the code) the expansion, when it fires,
+puts the point exactly on the new boundary — for every `u ≠ 0`. -/
+theorem expandToIncludeIntended_boundary (eps : K) (sq : K → K) (h : Halfspace K (Fin k → K)) (v' : Fin k → K)
+    (husq : h.usq = (finVecOps K k).dot h.u h.u) (hpos : 0 < h.usq)
+    (ht : 0 < -(1 / 2 - (finVecOps K k).dot v' h.u / h.usq)) :
+    (finVecOps K k).dot v' (h.expandToIncludeIntended (fieldChartArith eps sq) (finVecOps K k) v').u =
+      (h.expandToIncludeIntended (fieldChartArith eps sq) (finVecOps K k) v').rhs := by
+  have hfire : (fieldChartArith eps sq).lt (fieldChartArith eps sq).zero
+      ((fieldChartArith eps sq).neg ((fieldChartArith eps sq).sub (fieldChartArith eps sq).half
+        ((fieldChartArith eps sq).div ((finVecOps K k).dot v' h.u) h.usq))) = true := by
+    simpa [fieldChartArith, fieldArith] using ht
+  simp only [Halfspace.expandToIncludeIntended, hfire, ↓reduceIte, Halfspace.setU]
+  rw [dot_smul_right, dot_smul_smul]
+  simp only [fieldChartArith, fieldArith]
+  rw [← husq]
+  have hN : h.usq ≠ 0 := ne_of_gt hpos
+  field_simp
+  ring
+
+end chartField
+
+/-- **kernel-checked witness** of the above over ℚ, one chart coordinate: `u = 1/2` (`‖u‖² = 1/4 < 1`),
+the point `v' = 3` lies beyond the boundary, `expandToInclude(v')` fires (`u` becomes `9/2`) — and the
+expanded halfspace still does not contain `v'`; with the *intended* distance `0.5 − v·u/‖u‖²` it
+lands exactly on the boundary. -/
+theorem expandToInclude_misses :
+    let A := fieldChartArith (1 / 1000 : Rat) id
+    let Vo := finVecOps Rat 1
+    let h : Halfspace Rat (Fin 1 → Rat) := Halfspace.setU A Vo ⟨0, fun _ => 0, 0, 0, 1⟩ (fun _ => 1 / 2)
+    (h.expandToInclude A Vo (fun _ => 3)).u 0 = 9 / 2 ∧
+    (h.expandToInclude A Vo (fun _ => 3)).contains A Vo (fun _ => 3) = false ∧
+    (h.expandToIncludeIntended A Vo (fun _ => 3)).contains A Vo (fun _ => 3) = true ∧
+    Vo.dot (fun _ => 3) (h.expandToIncludeIntended A Vo (fun _ => 3)).u =
+      (h.expandToIncludeIntended A Vo (fun _ => 3)).rhs := by
+  simp only [Halfspace.expandToInclude, Halfspace.expandToIncludeIntended, Halfspace.setU, Halfspace.contains,
+    Halfspace.distanceToPoint, fieldChartArith, fieldArith, finVecOps, Finset.univ_unique, Finset.sum_singleton]
+  norm_num
 
 /-! ## Non-vacuity: a traversal that stores three further states and succeeds (it keeps going at
 `dist = delta`: the loop condition is `dist >= tolerance`) -/
